@@ -65,12 +65,13 @@ enum Variant
   V_CV_BUFADDR_VOL,
   V_CV_STRUCT_VALUE,
   V_CV_STRUCT_VALUE_GENERIC,
+  V_RANGE_LONG,
   V_COUNT
 };
 static const char* kVar[] = { "string_uptr",   "string_std",  "string_uptr_from_cell", "string_std_from_cell", "range_char",   "range_short",
                               "range_int",     "range_ll",    "range_double",          "range_int_from_cell",  "cv_ptr_prim",  "cv_ptr_prim_from_cell",
                               "cv_fund_in_cell", "cv_struct", "cv_array_field",        "cv_address_from_cell", "cv_buffer_address", "deny_access_copy",
-                              "string_const_uptr", "string_const_uptr_from_cell", "cv_array_field_by_reference", "cv_buffer_address_from_cell", "cv_struct_by_value", "cv_struct_by_value_generic_verifier" };
+                              "string_const_uptr", "string_const_uptr_from_cell", "cv_array_field_by_reference", "cv_buffer_address_from_cell", "cv_struct_by_value", "cv_struct_by_value_generic_verifier", "range_long" };
 static_assert(sizeof(kVar) / sizeof(kVar[0]) == V_COUNT);
 
 enum Mut
@@ -101,6 +102,7 @@ static size_t elem_size(int v)
     case V_RANGE_INT_VOL:
     case V_CV_PRIM:
     case V_CV_PRIM_VOL:
+    case V_RANGE_LONG: // the guest's long
       return 4;
     case V_RANGE_LL:
     case V_RANGE_DOUBLE:
@@ -391,6 +393,7 @@ struct ToctouWorld : World
     std::unique_ptr<short[]> u_short;
     std::unique_ptr<int[]> u_int;
     std::unique_ptr<long long[]> u_ll;
+    std::unique_ptr<long[]> u_long;
     std::unique_ptr<double[]> u_double;
     std::unique_ptr<int> u_prim;
     std::unique_ptr<rlbox::tainted<SimNode, Sbx>> u_struct;
@@ -469,6 +472,16 @@ struct ToctouWorld : World
         case V_RANGE_LL:
           u_ll = pA((long long*)0).copy_and_verify_range(
             [&](std::unique_ptr<long long[]> v) {
+              verifier_saw(v.get(), lenA * 8, !v);
+              return v;
+            },
+            lenA);
+          break;
+        case V_RANGE_LONG:
+          // long is 4 bytes in the guest and 8 in the application: whatever the library makes of that, nothing from
+          // behind the region may end up in the copy (content is not judged, see assumptions)
+          u_long = pA((long*)0).copy_and_verify_range(
+            [&](std::unique_ptr<long[]> v) {
               verifier_saw(v.get(), lenA * 8, !v);
               return v;
             },
@@ -647,7 +660,9 @@ struct ToctouWorld : World
       if (!legit)
         c.violate("C09", cls("verifier_received_null_for_non_null_source"), "the source pointer was never null");
     }
-    if (fault_free && o != OK && !(variant == V_DENY && copied == false && deny_buf == nullptr)) {
+    // a range of application-sized longs that does not fit before the end of the region may be refused
+    bool long_overreach = variant == V_RANGE_LONG && (size_t)offA + (size_t)lenA * 8 > S;
+    if (fault_free && o != OK && !long_overreach && !(variant == V_DENY && copied == false && deny_buf == nullptr)) {
       c.violate("C09", cls("fault_free_call_aborted"), "%s", g_last_abort_msg.c_str());
     }
     if (o == OK && variant != V_DENY && !got.called) {
@@ -679,6 +694,12 @@ struct ToctouWorld : World
       } else if (variant == V_STR_STD || variant == V_STR_STD_VOL) {
         kept_ptr = kept_std.data();
         kept_n = kept_std.size() + 1;
+        // the string's own terminator slot belongs to the copy as well
+        if (kept_std.data()[kept_std.size()] != '\0') {
+          c.violate("C09", cls("string_not_terminated_inside_its_buffer"), "std::string of %zu characters whose terminator slot holds %d", kept_std.size(), (int)(unsigned char)kept_std.data()[kept_std.size()]);
+          kept_ptr = nullptr;
+          kept_n = 0;
+        }
       } else if (u_char) {
         kept_ptr = u_char.get();
         kept_n = lenA;
@@ -690,6 +711,9 @@ struct ToctouWorld : World
         kept_n = lenA * 4;
       } else if (u_ll) {
         kept_ptr = u_ll.get();
+        kept_n = lenA * 8;
+      } else if (u_long) {
+        kept_ptr = u_long.get();
         kept_n = lenA * 8;
       } else if (u_double) {
         kept_ptr = u_double.get();
@@ -794,6 +818,10 @@ struct ToctouWorld : World
         for (size_t i = 0; i < 8 && !c.stop; i++)
           if (!byte_allowed(offsetof(GNode, name) + i, kept[i]))
             c.violate("C09", cls("delivered_byte_never_in_source"), "array element %zu", i);
+      } else if (variant == V_RANGE_LONG) {
+        for (size_t i = 0; i < kept.size() && !c.stop; i++)
+          if (kept[i] == CANARY)
+            c.violate("C09", cls("application_memory_leaked_into_copy"), "byte %zu of the copy is a byte of the application page behind the region", i);
       } else {
         for (size_t i = 0; i < kept.size() && !c.stop; i++) {
           if (!byte_allowed(i, kept[i]))
@@ -801,7 +829,7 @@ struct ToctouWorld : World
         }
       }
       // fault-free: exact content
-      if (fault_free && !c.stop && variant != V_CV_STRUCT && variant != V_CV_STRUCT_VALUE && variant != V_CV_STRUCT_VALUE_GENERIC) {
+      if (fault_free && !c.stop && variant != V_CV_STRUCT && variant != V_CV_STRUCT_VALUE && variant != V_CV_STRUCT_VALUE_GENERIC && variant != V_RANGE_LONG) {
         const uint8_t* src = &versions[0][offA + (variant == V_CV_ARRAY || variant == V_CV_ARRAY_REF ? offsetof(GNode, name) : 0)];
         size_t n = is_string(variant) ? kept_n - 1 : kept.size();
         if (is_string(variant) && n != lenA)
